@@ -43,11 +43,19 @@ def nrt_part(ctx, c, n, own, other_note):
     for i in range(n):
         prof = 'mixed' if i % 3 else 'time'
         cases.append(K.gen_prog(rng, prof, malformed=(i % 5 == 4)))
+    # scenario class: every (parent clock, child clock) pair, non-zero start, tempi != 1 and different
+    for k in range(max(32, n // 4)):
+        cases.append(K.gen_cross_prog(rng, k))
     outs, bad, explain, errors = K.run_nrt_correspondence(ctx, cases, 'nrt')
     c.evaluations += len(cases)
     for p, o in zip(cases, outs):
         if 'fatal' in o:
             continue
+        for e in o['events']:
+            if e[0] == 'play' and e[1] is not None:
+                par = next((x[3] for x in o['events'] if x[0] == 'resume' and x[1] == e[1][0]), None)
+                if par is not None and Fraction(e[4]) != 0:
+                    c.count('nrt:play %s<-%s at time>0' % (K.clock_name(e[3]), K.clock_name(par)))
         nres = sum(1 for e in o['events'] if e[0] == 'resume')
         c.count('nrt:resumptions:%s' % ('0' if nres == 0 else '1-3' if nres <= 3 else '4-9' if nres <= 9 else '10+'))
         for e in o['events']:
@@ -61,8 +69,21 @@ def nrt_part(ctx, c, n, own, other_note):
     for i in bad:
         t = K.classify(explain.get(i))
         if t is None:
-            c.failures.append(Failure('correspondence', 'NRT: the model reproduces the implementation under no variant: codes %s' % (explain.get(i),),
-                                      replay={'program': cases[i], 'implementation': outs[i]}))
+            if 'unexplained' in seen and len([1 for x in seen if str(x).startswith('unexplained')]) >= 3:
+                continue
+            seen.add('unexplained'); seen.add('unexplained%d' % i)
+            # the property statements checked directly on what the library did (no model)
+            mons = K.monitors(cases[i], outs[i]) + K.score_monitors(cases[i], outs[i])
+            if mons:
+                th, _, text = mons[0]
+                c.failures.append(Failure('correspondence', '%s fails on the real library (NRT): %s. Program: %s' % (th, text, json.dumps(cases[i])),
+                                          theorem=th, found_input=True,
+                                          replay={'program': cases[i], 'observed_events': outs[i]['events'], 'observed_score': outs[i]['score'],
+                                                  'expected': text, 'all_monitor_findings': [m[2] for m in mons]}))
+            else:
+                c.failures.append(Failure('correspondence', 'NRT: the model reproduces the implementation under no variant: codes %s. Program: %s'
+                                          % (explain.get(i), json.dumps(cases[i])),
+                                          replay={'program': cases[i], 'implementation': outs[i]}))
             continue
         ls = labels(t)
         mine = [l for l in ls if l in own]
@@ -86,7 +107,10 @@ def nrt_part(ctx, c, n, own, other_note):
 
 
 def rt_part(ctx, c, n):
-    cases = [K.gen_prog(ctx.rng, 'rt') for _ in range(n)]
+    cases = [K.gen_prog(ctx.rng, 'rt') for _ in range(n - 2 * (n // 3))]
+    cases += [K.gen_cross_prog(ctx.rng, k, rt=True) for k in range(n // 3)]
+    # routines ON a TempoClock change its tempo while running late, then yield and send with latency
+    cases += [K.gen_rt_tempo_prog(ctx.rng) for _ in range(n // 3)]
     outs, codes = K.run_rt_correspondence(ctx, cases, 'rt', seed=ctx.seed)
     c.evaluations += len(cases)
     for p, o, code in zip(cases, outs, codes):
@@ -96,7 +120,13 @@ def rt_part(ctx, c, n):
         c.count('rt:wakeups:%d' % min(9, sum(1 for s in o['schedule'] if s[0] == 'wake')))
         c.nontriv(('rt', json.dumps(p, sort_keys=True)))
         has_tempo = any(a[0] == 'T' for b in p['bodies'] for a in b)
+        if has_tempo:
+            c.count('rt:program changes a tempo from a routine (late by construction)')
         if code == 0 or (code == 3 and has_tempo):
+            continue
+        nrep = sum(1 for f in c.failures if f.what.startswith('RT: '))
+        if nrep >= 2:
+            c.count('rt:further disagreeing programs (not reported one by one)')
             continue
         what = {1: 'the recorded interleaving is not an execution of the RT model (a task ran that was not at the head of its clock queue)',
                 2: 'logical times / timetags observed under jitter differ from the model replaying the same oracle',
@@ -106,10 +136,44 @@ def rt_part(ctx, c, n):
     return cases, outs
 
 
+def probe_part(ctx, c, only_ops=None, modes=('nrt', 'rt')):
+    """Law probes with the harness's own oracle (no model): sched / defer / play / clock.beats = v / etempo issued from a
+    routine on every kind of clock (started at a non-zero time, advanced by a yield, tempi != 1), NRT and RT under jitter."""
+    for mode, n in (('nrt', ctx.n(len(K.probe_combos(False)), 600)), ('rt', ctx.n(len(K.probe_combos(True)), 120))):
+        if mode not in modes:
+            continue
+        rt = mode == 'rt'
+        probes = [K.gen_probe(ctx.rng, k, rt) for k in range(n)]
+        if only_ops is not None:
+            probes = [pr for pr in probes if pr['op'] in only_ops]
+        env = {'SC3_LIB_PORT': str(59500 + (os.getpid() * 11 + ctx.seed) % 400)} if rt else None
+        res = ctx.impl('c05_kscript', {'cases': [], 'probes': probes, 'seed': ctx.seed}, mode=mode, timeout=900, extra_env=env)['probes_out']
+        c.evaluations += len(probes)
+        reported = set()
+        for pr, o in zip(probes, res):
+            bad = K.probe_expected(pr, o)
+            if bad is None:
+                c.count('%s:probe not completed in time (machine load); not compared' % mode)
+                continue
+            c.count('%s:probe:%s %s<-%s' % (mode, pr['op'], K.clock_name(pr['target']), K.clock_name(pr['parent'])))
+            c.nontriv(('probe', mode, json.dumps(pr, sort_keys=True)))
+            if bad and (mode, pr['op']) not in reported:
+                reported.add((mode, pr['op']))
+                what, got, exp = bad[0]
+                c.failures.append(Failure(
+                    'correspondence', '%s: %s is %s, expected %s (all differences: %s). Probe: %s'
+                    % (mode.upper(), what, got, exp, bad, json.dumps(pr)),
+                    theorem='child_starts_at_parent_time' if pr['op'] in ('play', 'sched', 'defer') else 'kth_resume_time / stamp_is_logical_plus_latency',
+                    found_input=True,
+                    replay={'probe': pr, 'observed': o, 'differences': bad, 'mode': mode,
+                            'how': 'SC3_MODE=%s PYTHONPATH=$SC3_REPO:/verif/harness python harness/impl/c05_kscript.py <in.json with {"cases":[],"probes":[probe]}> out.json' % mode}))
+
+
 def correspond(ctx):
     c = Corr()
     cases, outs = nrt_part(ctx, c, ctx.n(150, 1500), MINE, None)
-    rt_part(ctx, c, ctx.n(30, 250))
+    rt_part(ctx, c, ctx.n(36, 270))
+    probe_part(ctx, c)
     c.rule = ('script programs (nested routines, yields, sends, tempo changes, plays across SystemClock/AppClock/TempoClocks) compiled to real '
               'generator functions; NRT: exact comparison of the whole event log (logical seconds and beats at every resumption, play instants, '
               'stamped bundles), of the score and of elapsed_time() with the model of the repaired behaviour, disagreements classified by the '
@@ -123,6 +187,7 @@ def search(ctx, failures):
     """Monitors on the implementation (no model): sum of yields, child start, monotone, elapsed."""
     rng = ctx.rng
     cases = [p for _, p in K.DEFECT_PROGS] + [K.gen_prog(rng, 'mixed') for _ in range(ctx.n(150, 1500))]
+    cases += [K.gen_cross_prog(rng, k) for k in range(ctx.n(32, 320))]
     outs = ctx.impl('c05_kscript', {'cases': cases}, mode='nrt')['out']
     found, seen = [], set()
     for p, o in zip(cases, outs):
